@@ -185,6 +185,18 @@ def run(ctx):
             env[st.targets[0].id] = lit(st.value, env)
         if isinstance(st, ast.Assign) and dotted(st.targets[0]) == "self.tmap":
             tmap = {lit(k, env): lit(v, env) for k, v in zip(st.value.keys, st.value.values)}
+    if tmap is None:
+        # the tables kept as class attributes (`tmap = {...}` in the class body)
+        for cl_ in ast.walk(repo.mod(pm).tree):
+            if isinstance(cl_, ast.ClassDef) and cl_.name == "NetConnections":
+                env = {}
+                for st in cl_.body:
+                    if isinstance(st, ast.Assign) and isinstance(st.targets[0], ast.Name):
+                        if st.targets[0].id == "tmap" and isinstance(st.value, ast.Dict):
+                            tmap = {lit(k, env): lit(v, env)
+                                    for k, v in zip(st.value.keys, st.value.values)}
+                        else:
+                            env[st.targets[0].id] = lit(st.value, env)
     ctx.require(tmap, "NetConnections.tmap vanished")
     cm = repo.mod("_common")
     ct = {}
@@ -493,6 +505,21 @@ def run(ctx):
         elif isinstance(e, ast.IfExp):
             owner_forms(e.body)
             owner_forms(e.orelse)
+        elif isinstance(e, ast.Call) and (dotted(e.func) or "").split(".")[-1] in {
+                g_.name for g_ in repo.all_funcs(pm) if g_.cls == "NetConnections"} \
+                and (dotted(e.func) or "").split(".")[-1] not in ("get_proc_inodes", "get_all_inodes"):
+            # a helper of the class that looks the holders up: what it returns
+            for g_ in repo.all_funcs(pm):
+                if g_.cls == "NetConnections" and g_.name == (dotted(e.func) or "").split(".")[-1]:
+                    gp_ = [a_.arg for a_ in g_.node.args.args if a_.arg not in ("self", "cls")]
+                    ren_ = {p_: dotted(a_) for p_, a_ in zip(gp_, e.args) if dotted(a_)}
+                    for r_ in [x for x in ast.walk(g_.node) if isinstance(x, ast.Return) and x.value]:
+                        import copy as _cp
+                        rv_ = _cp.deepcopy(r_.value)
+                        for n_ in ast.walk(rv_):
+                            if isinstance(n_, ast.Name) and n_.id in ren_:
+                                n_.id = ren_[n_.id]
+                        owner_forms(rv_)
         elif isinstance(e, ast.ListComp) and len(e.generators) == 1 \
                 and isinstance(e.generators[0].target, ast.Name) \
                 and dotted(e.elt) == e.generators[0].target.id:
